@@ -58,6 +58,11 @@ var literalCases = map[string]struct {
 		c: Case{Program: "fork (=> sort -nulls first n => pass) | join on n=n", Meta: prog.Meta{Ordered: false, Deterministic: true}, Source: "grammar",
 			Input: gen.SeqFromZSON(`{n:2,b:2} {n:null(int64),b:0} {n:1,b:1}`), Reader: "plain", Frame: 100000, Threads: 1, Batch: 100},
 	},
+	"known-C07-sort-lifted-merge-order": {
+		sig: "C07/sort-lifted-into-fork/merge-order-differs-from-sort", expect: "known",
+		c: Case{Program: "fork (=> pass => pass) | sort -r n", Meta: prog.Meta{Ordered: false, Deterministic: true, FinalSort: "sort -r n"}, Source: "grammar",
+			Input: gen.SeqFromZSON(`{n:1} {n:3} {n:2} {n:null(int64)}`), Reader: "plain", Frame: 100000, Threads: 1, Batch: 100},
+	},
 	"known-C07-sortkey-join-desc-nulls": {
 		sig: "C07/sortkey-join/desc-null-keys", expect: "known",
 		c: Case{Program: "fork (=> pass => put a:=a) | join on a=a b2:=b", Meta: prog.Meta{Ordered: false, Deterministic: true}, Source: "grammar",
